@@ -22,7 +22,9 @@
 
 import random
 from collections import deque
-from typing import TYPE_CHECKING
+from typing import TYPE_CHECKING, Set
+
+from .._dns import DNSRecord
 
 from .._utils.time import current_time_millis, millis_to_seconds
 from ..const import _ONE_SECOND
@@ -101,6 +103,19 @@ class MulticastOutgoingQueue:
                     if entry is not None and now - entry.created < _ONE_SECOND:
                         continue
                 pending.answers.pop(record, None)
+
+    def async_remove_records(self, records: Set[DNSRecord]) -> None:
+        """Drop records that must not be sent anymore from every queued group.
+
+        Used when a service is unregistered so that an answer queued
+        before the goodbye is not multicast after it.
+        """
+        for pending in self.queue:
+            for record in records:
+                pending.answers.pop(record, None)
+            for answer, additionals in pending.answers.items():
+                if not records.isdisjoint(additionals):
+                    pending.answers[answer] = additionals - records
 
     def async_ready(self) -> None:
         """Process anything in the queue that is ready."""
